@@ -5,6 +5,7 @@ import (
 	"github.com/uber-go/tally/v4/m3"
 	"math"
 	"strings"
+	"sync"
 	"time"
 
 	tally "github.com/uber-go/tally/v4"
@@ -64,6 +65,14 @@ func c09Scenarios(tier string) []*Scenario {
 				closeScope(root.Tagged(map[string]string{"victim": "1"}))
 			}
 			objs := make([]interface{}, v.threads)
+			// the start and the return of every gauge update, in order (scenario bodies also run free, hence the lock)
+			var gev []string
+			var gevMu sync.Mutex
+			gaugeEv := func(e string) {
+				gevMu.Lock()
+				gev = append(gev, e)
+				gevMu.Unlock()
+			}
 			var ths []*rt.Thread
 			for i := 0; i < v.threads; i++ {
 				i := i
@@ -76,7 +85,9 @@ func c09Scenarios(tier string) []*Scenario {
 						objs[i] = m
 					case "gauge":
 						m := s.Gauge("x")
+						gaugeEv(fmt.Sprintf("s%d", i))
 						m.Update(float64(val))
+						gaugeEv(fmt.Sprintf("d%d", i))
 						objs[i] = m
 					case "gauge+lookup":
 						// one goroutine makes the first use and nothing else (it may sit in the reporter's Allocate call for a
@@ -150,6 +161,7 @@ func c09Scenarios(tier string) []*Scenario {
 				t.Join()
 			}
 			p.Join()
+			x.Vals["gauge-events"] = gev
 			tally.VerifReportOnce(root)
 			if v.kind == "two-timers" || v.kind == "two-histograms" {
 				// asking again returns the object handed out at first use (a metric that dropped out of its scope's table
@@ -245,6 +257,37 @@ func c09Scenarios(tier string) []*Scenario {
 				}
 				if n < 1 || n > v.threads {
 					return "gauge-lost", fmt.Sprintf("%d gauge deliveries for %d updates", n, v.threads), "viol"
+				}
+				// "everything recorded through any of the returned handles is delivered": after the closing pass the
+				// reporter's latest value is that of an update which no other update came after (an update that
+				// started when another had already returned is the later one of the two)
+				var last uint64
+				for _, e := range log {
+					if e.Kind == "gauge" && e.ID() == pre+"x{}" {
+						last = e.F
+					}
+				}
+				evs, _ := x.Vals["gauge-events"].([]string)
+				pos := map[string]int{}
+				for k, e := range evs {
+					pos[e] = k
+				}
+				okLast := false
+				var could []float64
+				for i := 0; i < v.threads; i++ {
+					superseded := false
+					for j := 0; j < v.threads; j++ {
+						if j != i && pos[fmt.Sprintf("s%d", j)] > pos[fmt.Sprintf("d%d", i)] {
+							superseded = true
+						}
+					}
+					if !superseded {
+						could = append(could, float64(int64(1)<<uint(i)))
+						okLast = okLast || math.Float64bits(float64(int64(1)<<uint(i))) == last
+					}
+				}
+				if len(evs) == 2*v.threads && !okLast {
+					return "gauge-update-lost", fmt.Sprintf("updates and their returns in order %v (goroutine i updates to 2^i); after the closing pass the reporter's latest value is %v, the last update was one of %v", evs, math.Float64frombits(last), could), "viol"
 				}
 			case "root-identity":
 				if cl, d := counterOracle(log, map[string]int64{pre + "x{}": total}, -1, true); cl != "" {
